@@ -459,6 +459,18 @@ Walk:
 
 			// No next static segment found, but maybe some params or wildcard child
 			if idx < 0 {
+				// Tsr recommendation: remove the extra trailing slash (got an exact match). The current leaf is the
+				// most specific candidate, so record it before going deeper into a wildcard child (e.g. /foo and
+				// /foo{bar} with /foo/), otherwise a less specific route found after backtracking would win.
+				if !tsr && current.isLeaf() && charsMatchedInNodeFound == len(current.key) && len(path)-charsMatched == 1 && path[charsMatched] == slashDelim {
+					tsr = true
+					n = current
+					// Save also a copy of the matched params, it should not allocate anything in most case.
+					if !lazy {
+						copyWithResize(c.tsrParams, c.params)
+					}
+				}
+
 				// We have at least a param child which is has higher priority that catch-all
 				if current.paramChildIndex >= 0 {
 					// We have also a wildcard child, save it for later evaluation
@@ -521,6 +533,19 @@ Walk:
 				// Save also a copy of the matched params, it should not allocate anything in most case.
 				if !lazy {
 					copyWithResize(c.tsrParams, c.params)
+				}
+			} else if charsMatched == len(path) && charsMatchedInNodeFound == len(current.key) {
+				// Tsr recommendation: add an extra trailing slash (got an exact match with an intermediary node
+				// which has a leaf child "/", e.g. /foo/ and /foobar with /foo).
+				if idx := linearSearch(current.childKeys, slashDelim); idx >= 0 {
+					if child := current.children[idx]; child.isLeaf() && len(child.key) == 1 {
+						tsr = true
+						n = child
+						// Save also a copy of the matched params, it should not allocate anything in most case.
+						if !lazy {
+							copyWithResize(c.tsrParams, c.params)
+						}
+					}
 				}
 			}
 		}
